@@ -236,6 +236,29 @@ def x5_predicates(F, R):
 VSOCK_OPS = {1: 'ConnectionRequest', 2: 'Connected', 3: 'Disconnected', 4: 'Disconnected', 5: 'Received', 6: 'CreditUpdate', 7: 'CreditRequest'}
 
 
+def x7_index_is_position(F, R):
+    """A lookup that hands back (index, &mut connection) returns the connection's position in the table, because callers remove the
+    connection with that index: its `enumerate` numbers the table's own iterator - not a filtered / skipped / reversed view of it,
+    whose indices count only the surviving elements."""
+    n = 0
+    for b in sorted(F.bodies.values(), key=lambda x: x['id']):
+        if not F.handwritten(b) or 'device::socket' not in b['id'] or b['kind'] not in ('Fn', 'AssocFn'):
+            continue
+        if not re.search(r'\(usize, &[^)]*Connection\)', b.get('sig', '').split('->')[-1]):
+            continue
+        sg = supergraph(F, b['id'], tag='flat', max_depth=0)
+        S = sg.sym
+        for c in sg.calls(lambda d: d.get('fn') == 'core::iter::Iterator::enumerate'):
+            n += 1
+            recv = strip_conv(S.operand(c.id, c.d['args'][0]))
+            direct = recv[0] == 'call' and recv[2].rsplit('::', 1)[-1] in ('iter', 'iter_mut', 'into_iter') and not any(
+                x[0] == 'call' and x is not recv for a in recv[3] for x in subterms(a))
+            R.check(direct, 'X7', '%s:index-is-position' % b['id'], site(sg, c), 'enumerate() numbers the table\'s own iterator',
+                    '%s returns an index taken from enumerate() over %s, not over the connection table itself: the index counts only the elements '
+                    'that adapter lets through, and callers remove the connection at that index (the wrong connection is dropped)' % (b['name'], fmt(recv)[:80]))
+    R.count('indexed_lookups', n)
+
+
 def x10_event_decoding(F, R):
     """A received header is turned into the event the protocol defines for its operation code (1 request, 2 response, 3 reset,
     4 shutdown, 5 data, 6 credit update, 7 credit request); reset and shutdown are told apart in the disconnect reason; control
@@ -443,6 +466,7 @@ def run(F, R):
     x5_predicates(F, R)
     x7_shutdown_flag(F, R)
     x10_event_decoding(F, R)
+    x7_index_is_position(F, R)
     M = model(F)
     M.require_rings()
     roles = C05.classify_api(C05.queue_api(F, M))
